@@ -778,6 +778,106 @@ fn run_stepwise_dialer(list: &[String], set: &[String], listener_first: bool) ->
     })
 }
 
+/// The dialer's FIRST operation on the negotiated stream is a vectored write (`poll_write_vectored`, what a codec that
+/// gathers header and body does): for a lazy dialer the negotiation frames are still buffered at that moment and have to
+/// go out before the payload.
+fn run_vectored_first(ver: Ver, lite_listener: bool, listener_first: bool) -> Vec<(String, String)> {
+    match catch_unwind(AssertUnwindSafe(|| run_vectored_first_inner(ver, lite_listener, listener_first))) {
+        Ok(v) => v,
+        Err(_) => {
+            let msg = normalize_panic(&e1::take_panic());
+            vec![(format!("panic/{}", e1::panic_site(&msg)), format!("panic `{msg}` when the dialer's first operation on the negotiated stream was a vectored write ({}, {} listener)", ver.name(), if lite_listener { "litep2p" } else { "reference" }))]
+        }
+    }
+}
+
+fn run_vectored_first_inner(ver: Ver, lite_listener: bool, listener_first: bool) -> Vec<(String, String)> {
+    let desc = json!({"kind": "vectored-first-write", "version": ver.name(), "lite_listener": lite_listener, "first": if listener_first { "listener" } else { "dialer" }});
+    let rt = driver::runtime(1);
+    rt.block_on(async move {
+        let (a, b, _h_d2l, _h_l2d) = pipe::duplex(pipe::Policy::default(), pipe::Policy::default());
+        let a = Shaped { inner: a, split_at: None, nread: 0 };
+        let b = Shaped { inner: b, split_at: None, nread: 0 };
+        let sd: Arc<Mutex<Side>> = Arc::new(Mutex::new(Side { phase: "select", ..Default::default() }));
+        let sl: Arc<Mutex<Side>> = Arc::new(Mutex::new(Side { phase: "select", ..Default::default() }));
+        let wp_d = payload(3, Dir::D2L);
+        let wp_l = payload(3, Dir::L2D);
+        let names = vec!["/a".to_string()];
+        let mut d = driver::Driver::new();
+        let fut_d: driver::BoxFut = {
+            let (o, wp, n, dn) = (sd.clone(), wp_d.clone(), wp_l.len(), names.clone());
+            Box::pin(async move {
+                let (name, mut io) = match lv::dialer_select_proto(a, dn, ver.lite()).await {
+                    Ok(x) => x,
+                    Err(e) => {
+                        o.lock().outcome = Some(Err(format!("select: {}", err_lite(&e))));
+                        return;
+                    }
+                };
+                o.lock().phase = "write-vectored";
+                let mut off = 0;
+                while off < wp.len() {
+                    match io.write_vectored(&[std::io::IoSlice::new(&wp[off..])]).await {
+                        Ok(0) => break,
+                        Ok(k) => off += k,
+                        Err(e) => {
+                            o.lock().outcome = Some(Err(format!("write: {}", err_io(&e))));
+                            return;
+                        }
+                    }
+                }
+                if let Err(e) = io.flush().await {
+                    o.lock().outcome = Some(Err(format!("flush: {}", err_io(&e))));
+                    return;
+                }
+                o.lock().phase = "read";
+                let (got, _) = read_n(&mut io, n).await;
+                o.lock().received = got;
+                let _ = io.close().await;
+                o.lock().outcome = Some(Ok(name.to_string()));
+                o.lock().phase = "done";
+            })
+        };
+        let fut_l: driver::BoxFut = {
+            let (o, ln, wp) = (sl.clone(), names.clone(), wp_l.clone());
+            Box::pin(async move {
+                if lite_listener {
+                    listener_app(lv::listener_select_proto(b, ln).await.map_err(|e| err_lite(&e)), o, wp).await
+                } else {
+                    listener_app(rf::listener_select_proto(b, ln).await.map_err(|e| err_ref(&e)), o, wp).await
+                }
+            })
+        };
+        if listener_first {
+            d.spawn("listener", fut_l);
+            d.spawn("dialer", fut_d);
+        } else {
+            d.spawn("dialer", fut_d);
+            d.spawn("listener", fut_l);
+        }
+        let finished = d.run_until_stalled(STEP_CAP);
+        let all_done = d.all_done();
+        drop(d);
+        let (sd, sl) = (sd.lock().clone(), sl.lock().clone());
+        let mut v = Vec::new();
+        if !finished || !all_done {
+            v.push((
+                "terminate/hang/vectored-first-write".to_string(),
+                format!("negotiation did not end when the dialer's first operation was a vectored write: dialer phase={} outcome={:?}, listener phase={} outcome={:?}; {desc}", sd.phase, sd.outcome, sl.phase, sl.outcome),
+            ));
+            return v;
+        }
+        let ok = |r: &Option<Result<String, String>>| matches!(r, Some(Ok(n)) if n == "/a");
+        if !ok(&sd.outcome) || !ok(&sl.outcome) || sd.received != wp_l || sl.received != wp_d {
+            v.push((
+                "agree/vectored-first-write".to_string(),
+                format!("expected both sides to agree on \"/a\" and exchange 3 bytes each way; dialer {:?} received {:?}, listener {:?} received {:?}; {desc}", sd.outcome, sd.received, sl.outcome, sl.received),
+            ));
+        }
+        v
+    })
+}
+
 // ------------------------------------------------------------------------------------------------
 // one execution
 // ------------------------------------------------------------------------------------------------
@@ -1795,6 +1895,23 @@ pub fn run(ctx: &mut Ctx) {
         ctx.sub("stepwise_dialer_vs_litep2p_listener", json!({"runs": n, "with_intersection": agreed, "dialer_lists": lists.len(), "listener_sets": sets.len()}));
     }
 
+    // ---- the dialer's first operation on the negotiated stream is a vectored write ----
+    {
+        let mut n = 0u64;
+        for ver in Ver::ALL {
+            for lite_listener in [true, false] {
+                for listener_first in [false, true] {
+                    n += 1;
+                    for (sig, what) in run_vectored_first(ver, lite_listener, listener_first) {
+                        ctx.violation(Violation { signature: sig, what, replay: json!({"kind": "vectored-first-write", "version": ver.name(), "lite_listener": lite_listener, "listener_first": listener_first}) });
+                    }
+                }
+            }
+        }
+        evals += n;
+        ctx.sub("vectored_first_write", json!({"runs": n}));
+    }
+
     // ---- message based ----
     let mut msg_runs = 0u64;
     let mut msg_nontrivial = 0u64;
@@ -1960,6 +2077,15 @@ pub fn replay(case: &Value) -> Result<String, String> {
             let v = run_stepwise_dialer(&list, &set, case["listener_first"].as_bool().unwrap_or(false));
             if v.is_empty() {
                 Ok("both sides ended with the expected outcome".into())
+            } else {
+                Err(v.iter().map(|(s, w)| format!("VIOLATION [{s}] {w}")).collect::<Vec<_>>().join("\n"))
+            }
+        }
+        "vectored-first-write" => {
+            let ver = case["version"].as_str().and_then(Ver::parse).unwrap_or(Ver::V1Lazy);
+            let v = run_vectored_first(ver, case["lite_listener"].as_bool().unwrap_or(true), case["listener_first"].as_bool().unwrap_or(false));
+            if v.is_empty() {
+                Ok("both sides agreed and exchanged their payloads".into())
             } else {
                 Err(v.iter().map(|(s, w)| format!("VIOLATION [{s}] {w}")).collect::<Vec<_>>().join("\n"))
             }
